@@ -1788,6 +1788,8 @@ func (s *Netceptor) handleServiceAdvertisement(data []byte, receivedFrom string)
 	defer s.serviceAdsLock.Unlock()
 	if withdrawn, ok := s.serviceAdsWithdrawn[si.NodeID][si.Service]; ok && !si.Time.After(withdrawn) {
 		// Not newer than a withdrawal we have already processed: neither store nor relay it.
+		verifhook.Emit(s.vn, "ad_recv", "owner", si.NodeID, "svc", si.Service, "time", si.Time.UnixNano(), "cancel", si.Cancel, "result", "withdrawn_newer", "via", receivedFrom)
+
 		return nil
 	}
 	n, ok := s.serviceAdsReceived[si.NodeID]
@@ -1806,7 +1808,7 @@ func (s *Netceptor) handleServiceAdvertisement(data []byte, receivedFrom string)
 
 		return nil
 	}
-	verifhook.Emit(s.vn, "ad_recv", "owner", si.NodeID, "svc", si.Service, "time", si.Time.UnixNano(), "cancel", si.Cancel, "result", "applied", "via", receivedFrom)
+	verifhook.Emit(s.vn, "ad_recv", "owner", si.NodeID, "svc", si.Service, "time", si.Time.UnixNano(), "cancel", si.Cancel, "result", "applied", "via", receivedFrom, "ctype", int(si.ConnType))
 	if si.Cancel {
 		delete(s.serviceAdsReceived[si.NodeID], si.Service)
 		if len(s.serviceAdsReceived[si.NodeID]) == 0 {
